@@ -1,0 +1,62 @@
+//go:build verif
+
+// Verification hooks (build tag "verif"): read-only access and in-process entry points for
+// the property-based checks kept outside this repository. Nothing here changes behaviour.
+
+package collector
+
+import (
+	"bytes"
+	"net"
+	"time"
+
+	"github.com/vmware/go-ipfix/pkg/entities"
+)
+
+// VerifClock and VerifTimer export the clock abstraction so that an external clock
+// implementation can be injected.
+type VerifClock = clock
+type VerifTimer = timer
+
+// VerifNewCollectingProcess is InitCollectingProcess with a caller-supplied clock.
+func VerifNewCollectingProcess(input CollectorInput, c VerifClock) (*CollectingProcess, error) {
+	return initCollectingProcess(input, c)
+}
+
+// VerifDecodePacket feeds one message to the decoder, exactly as the transport readers do.
+func (cp *CollectingProcess) VerifDecodePacket(packet []byte, exportAddress string) (*entities.Message, error) {
+	return cp.decodePacket(bytes.NewBuffer(packet), exportAddress)
+}
+
+// VerifHandleTCPClient runs the TCP connection handler on the given connection.
+func (cp *CollectingProcess) VerifHandleTCPClient(conn net.Conn) {
+	cp.handleTCPClient(conn)
+}
+
+// VerifTemplate is a read-only snapshot of one stored template.
+type VerifTemplate struct {
+	ObsDomainID uint32
+	TemplateID  uint16
+	Elements    []*entities.InfoElement
+	ExpiryTime  time.Time
+	Timer       VerifTimer
+}
+
+// VerifTemplates returns a snapshot of the template table.
+func (cp *CollectingProcess) VerifTemplates() []VerifTemplate {
+	cp.mutex.RLock()
+	defer cp.mutex.RUnlock()
+	var out []VerifTemplate
+	for dom, m := range cp.templatesMap {
+		for id, tpl := range m {
+			out = append(out, VerifTemplate{
+				ObsDomainID: dom,
+				TemplateID:  id,
+				Elements:    append([]*entities.InfoElement(nil), tpl.ies...),
+				ExpiryTime:  tpl.expiryTime,
+				Timer:       tpl.expiryTimer,
+			})
+		}
+	}
+	return out
+}
